@@ -248,6 +248,34 @@ def prop_accounts(sh, case):
     return fails
 
 
+def prop_positions(sh, case):
+    """possign / neg / abs / units / cost / str / bool over positions and amounts, zero units included."""
+    from beancount.core import amount, convert, position
+    fails = []
+    A, P, C = amount.Amount, position.Position, position.Cost
+    cost = C(D('10.00'), 'USD', datetime.date(2019, 1, 15), None)
+    positions = [P(A(D('5'), 'HOOL'), cost), P(A(D('-2.50'), 'USD'), None), P(A(D('0'), 'USD'), None), P(A(D('0.00'), 'EUR'), None),
+                 P(A(D('0'), 'HOOL'), cost), P(A(D('7'), 'EUR'), None)]
+    accounts = ['Assets:Cash', 'Liabilities:Card', 'Equity:Opening', 'Income:Job', 'Expenses:Food']
+    rows = [(p, p.units, a) for p in positions for a in accounts]
+    conn = ledgers.connect(ledgers.SAMPLE)
+    conn.tables['pp'] = htables.HTable('pp', [('p', P), ('u', A), ('a', str)], rows)
+    q = ('SELECT possign(p, a) AS s, possign(u, a) AS su, neg(p) AS n, abs(p) AS ab, units(p) AS un, cost(p) AS c, str(p) AS t, '
+         'bool(u) AS b, number(u) AS nu, currency(u) AS cu, units(p) IS NULL AS isn, str(u) AS tu FROM #pp')
+    r = harness.engine(conn, harness.parsed(q))
+    if r[0] != 'ok':
+        return [(exc_sig(r[1], 'positions:raises'), repr(r[1]))]
+    for (p, u, a), row in zip(rows, r[2]):
+        credit = a.split(':')[0] in CREDIT
+        want = (-p if credit else p, -u if credit else u, -p, abs(p), convert.get_units(p), convert.get_cost(p), str(p), bool(u),
+                u.number, u.currency, False, str(u))
+        if any(x is None for x in row) or tuple(row) != want or repr(tuple(row)) != repr(want):
+            fails.append(('positions:functions', f'{p} on {a}: got {row!r}, want {want!r}'))
+            break
+    sh.record('positions', True, {'law': 'position/amount functions', 'rows': len(rows)}, n=len(rows))
+    return fails
+
+
 # ------------------------------------------------------------------ strings
 
 ALPHABET = 'aB :'
@@ -525,12 +553,12 @@ def prop_casts(sh, case):
     return fails
 
 
-PARTS = {'dates': prop_dates, 'accounts': prop_accounts, 'strings': prop_strings, 'arith': prop_arith, 'bin': prop_bin,
+PARTS = {'positions': prop_positions, 'dates': prop_dates, 'accounts': prop_accounts, 'strings': prop_strings, 'arith': prop_arith, 'bin': prop_bin,
          'casts': prop_casts}
 
 
 def run(sh):
-    work = [('dates', law) for law in date_laws()] + [('accounts', None)] + [('strings', law) for law in STRING_LAWS] + [('casts', None)]
+    work = [('dates', law) for law in date_laws()] + [('accounts', None), ('positions', None)] + [('strings', law) for law in STRING_LAWS] + [('casts', None)]
     for part, case in sh.mine(work):
         case = list(case) if isinstance(case, tuple) else case
         for sig, detail in PARTS[part](sh, case):
